@@ -1,0 +1,21 @@
+//go:build verif
+
+// Contracts for package handshake, read by the verifier in /verif (govc). Comment-only: this file
+// declares nothing and is compiled only with -tags verif.
+package handshake
+
+// C16: the handshake reader. It buffers a message until the 6-byte header and the declared body are
+// complete; the declared length is capped at 65535 before it is used to wait for more bytes, so the
+// reader never buffers more than 6+65535 bytes plus one read of at most 4096 bytes, whatever the peer
+// sends; the body is handed to the decoder only after the magic byte and the version were checked.
+//@ iface net.Conn.Read
+//@   ensures 0 <= result.0 && result.0 <= len(b)
+//@ iface net.Conn.SetReadDeadline
+//@ func edf.Decode
+//@   trusted
+//@ func (h *handshake) readMessage
+//@   props C16 C15
+//@   requires conn != nil && len(chunk) <= 65541
+//@   loop 1 invariant [bounded_buffering] 6 <= expect && expect <= 65541 && len(chunk) <= 65541 + 4096
+//@   at call Read assert [reads_only_while_the_message_is_incomplete_and_capped] len(caller_chunk) < expect && expect <= 65541
+//@   at call Decode assert [decodes_only_a_complete_message_with_checked_magic_and_version] len(caller_chunk) >= 6 && caller_chunk[0] == handshakeMagic && caller_chunk[1] == handshakeVersion && len(packet) <= 65541 + 4096
